@@ -460,9 +460,9 @@ func emptinessGuard(fn *ssa.Function, v ssa.Value, pol bool) bool {
 		return false
 	}
 	// operand: len(x) or an int, derived from a storage terminal in this function
-	src := sources(bo.X)
-	for k := range src {
-		if k == "call:Save" || k == "call:Scan" || k == "call:All" || k == "call:IDs" || k == "call:Exec" {
+	// the operand is (the length of) a call result; which statement's result it is gets decided by the caller
+	for k := range sources(bo.X) {
+		if strings.HasPrefix(k, "call:") {
 			return true
 		}
 	}
